@@ -12,6 +12,12 @@
 // the node's stderr, or a dead process is a violation; the request is on disk before it is
 // sent. A request without answer after the watchdog is re-run alone on a fresh idle node and
 // only counts if it reproduces against the bound.
+//
+// A slice of the nodes (conc.go) is driven by K clients at the same time, reading and changing
+// the same few wallets, the pool and the key-value storage: same oracle per request; a missing
+// answer there is judged by a logical deadlock witness (probes + goroutine dump) instead of the
+// single-request reproduction. One of those nodes is a -race build whose data race reports are
+// recorded as observations.
 package main
 
 import (
@@ -746,7 +752,7 @@ func main() {
 	sort.SliceStable(jobs, func(a, b int) bool { return jobs[a].Index < jobs[b].Index })
 	// the concurrent leg runs next to the sequential one, on nodes of its own
 	var cjobs []concJob
-	nConc, perConc, kConc := r.Pick(3, 8), r.Pick(2400, 24000), r.Pick(12, 16)
+	nConc, perConc, kConc := r.Pick(3, 12), r.Pick(2400, 8000), r.Pick(12, 16)
 	for i := 0; i < nConc; i++ {
 		cj := concJob{World: "main", Index: 500 + i, N: perConc, K: kConc}
 		if i%4 == 2 {
@@ -760,12 +766,12 @@ func main() {
 	concDone := make(chan struct{})
 	go func() {
 		defer close(concDone)
-		vf.Parallel(len(cjobs), r.Pick(3, 4), func(i int) { h.runConc(cjobs[i]) })
+		vf.Parallel(len(cjobs), 3, func(i int) { h.runConc(cjobs[i]) })
 	}()
 	if onlyConc {
 		jobs = nil
 	}
-	vf.Parallel(len(jobs), r.Pick(12, 12), func(i int) { h.runJob(jobs[i]) })
+	vf.Parallel(len(jobs), r.Pick(12, 14), func(i int) { h.runJob(jobs[i]) })
 	<-concDone
 	<-slowDone
 
@@ -830,10 +836,10 @@ func main() {
 	r.Floor("status.400", 3000)
 	// concurrent leg: a run without real overlap of reads and state changes says nothing
 	r.Floor("conc.jobs", int64(nConc))
-	r.Floor("conc.requests", int64(r.Pick(5000, 120000)))
-	r.Floor("conc.state_changing_200", int64(r.Pick(1000, 25000)))
-	r.Floor("conc.read_only_200", int64(r.Pick(1500, 30000)))
-	r.Floor("conc.read_overlapping_state_change", int64(r.Pick(1500, 30000)))
+	r.Floor("conc.requests", int64(r.Pick(5000, 60000)))
+	r.Floor("conc.state_changing_200", int64(r.Pick(1000, 12000)))
+	r.Floor("conc.read_only_200", int64(r.Pick(1500, 18000)))
+	r.Floor("conc.read_overlapping_state_change", int64(r.Pick(1500, 25000)))
 	r.Floor("conc.max_requests_in_flight_on_one_node", int64(kConc-2))
 	cleanup()
 	r.Finish("per node instance: the minimal valid request of every endpoint, then a seeded stream of grammar-generated requests (typed dictionaries per documented parameter: valid / unknown / boundary / malformed), mutations of earlier successful requests and syntactically valid junk; two prepared nodes (30-block chain with pool and wallets; height 0 with a pooled transaction); non-trivial = distinct (method, route, status, answer shape)",
